@@ -95,12 +95,15 @@ class LossEnv:
         return {k: AT((rows, 1), np.array([Poly.atom(('P', k, (), frozenset({rows}), False))], dtype=object)) for k in keys}
 
     # ---- user equations
-    def user_dynamic_loss(self, eq_type, m, name='R', multi=None, heterogeneity=None, equation=None):
+    def user_dynamic_loss(self, eq_type, m, name='R', multi=None, heterogeneity=None, equation=None, scalar=False):
         """instance of the repo's ODE / PDEStatio / PDENonStatio class whose `equation` is an opaque user
         residual R_c = F_c(point) + u_{c mod m_u}(point; params) + sum of the scalar equation parameters"""
         base = {'ODE': 'ODE', 'statio_PDE': 'PDEStatio', 'nonstatio_PDE': 'PDENonStatio'}[eq_type]
         cls = self.mod_dla.env.get(base)
         eqf = equation if equation is not None else make_user_equation(m, name, multi)
+        if scalar:
+            vec = eqf
+            eqf = lambda *a: to_at(vec(*a))[..., 0]      # a scalar (float) residual per point
         return cls.make(Tmax=K("Tmax"), eq_params_heterogeneity=heterogeneity, equation=eqf)
 
 
